@@ -206,13 +206,21 @@ class Charge:
             charge_pos_hor, self._geo.pixel_horz_size
         ).astype(int)
 
+        # Charges located outside the sensitive area are not collected by any pixel
+        inside = (
+            (pixel_index_ver >= 0)
+            & (pixel_index_ver < self._geo.row)
+            & (pixel_index_hor >= 0)
+            & (pixel_index_hor < self._geo.col)
+        )
+
         # Changing = to += since charge dataframe is reset, the pixel array need to be
         # incremented, we can't do the whole operation on each iteration
         return df_to_array(
             array=array,
-            charge_per_pixel=charge_per_pixel,
-            pixel_index_ver=pixel_index_ver,
-            pixel_index_hor=pixel_index_hor,
+            charge_per_pixel=charge_per_pixel[inside],
+            pixel_index_ver=pixel_index_ver[inside],
+            pixel_index_hor=pixel_index_hor[inside],
         )
 
     @staticmethod
